@@ -19,6 +19,9 @@ QF = {"threads": ["f1", "c1"], "bounds": [1, 3],
 
 # the same scripts on a histogram with 40 buckets (bucket lookup, snapshot assembly and flush loops over a long list)
 Awide = dict(A, bounds=list(range(1, 41)))
+# ... and on histograms with no finite bucket at all (declared with the single bound +Inf) and with a single one
+Ainf = dict(A, bounds=[])
+Aone = dict(A, bounds=[3])
 
 
 def run(ctx):
@@ -26,12 +29,16 @@ def run(ctx):
     stats, samples = new_stats(), []
     if ctx.quick:
         run_scenario(ctx, "C02", exe, Awide, "Awide", stats, samples, model=False, nrandom=60, vias=("direct",), liveness=False, check=False)
+        run_scenario(ctx, "C02", exe, Ainf, "Ainf", stats, samples, model=True, nrandom=100, vias=("direct", "registry"), liveness=False)
+        run_scenario(ctx, "C02", exe, Aone, "Aone", stats, samples, model=False, nrandom=60, vias=("direct",), liveness=False, check=False)
         run_scenario(ctx, "C02", exe, Q, "Q", stats, samples, model=True, nrandom=150, vias=("vec", "registry"), liveness=False)
         run_scenario(ctx, "C02", exe, A, "A", stats, samples, model=False, nrandom=300, vias=("direct",), hb=True, liveness=False)
         run_scenario(ctx, "C02", exe, QF, "QF", stats, samples, model=True, nrandom=100, vias=("direct",), liveness=False)
         run_scenario(ctx, "C02", exe, dict(A, shift=1000), "Aneg", stats, samples, model=False, nrandom=150, vias=("direct",), liveness=False, check=False)
     else:
         run_scenario(ctx, "C02", exe, Awide, "Awide", stats, samples, model=False, nrandom=2000, vias=("direct", "vec"), liveness=False, check=False)
+        run_scenario(ctx, "C02", exe, Ainf, "Ainf", stats, samples, model=False, nrandom=2000, vias=("direct", "vec", "registry"), liveness=False, check=False)
+        run_scenario(ctx, "C02", exe, Aone, "Aone", stats, samples, model=False, nrandom=1000, vias=("direct", "vec"), liveness=False, check=False)
         run_scenario(ctx, "C02", exe, dict(A, shift=1000), "Aneg", stats, samples, model=False, nrandom=3000, vias=("direct", "registry"), liveness=False, check=False)
         run_scenario(ctx, "C02", exe, QF, "QF", stats, samples, model=True, nrandom=2000, vias=("direct", "vec", "registry"), liveness=False)
         run_scenario(ctx, "C02", exe, Q, "Q", stats, samples, model=True, nrandom=2000, vias=("vec", "registry"), liveness=False)
